@@ -20,12 +20,14 @@ import (
 	"reflect"
 	"sort"
 	"strings"
+	"sync"
 	"time"
 	"unsafe"
 
 	errorsmod "cosmossdk.io/errors"
 	sdkmath "cosmossdk.io/math"
 	tmdb "github.com/cometbft/cometbft-db"
+	abci "github.com/cometbft/cometbft/abci/types"
 	"github.com/cometbft/cometbft/libs/log"
 	tmproto "github.com/cometbft/cometbft/proto/tendermint/types"
 	"github.com/cosmos/cosmos-sdk/baseapp"
@@ -99,6 +101,7 @@ type node struct {
 type txDesc struct {
 	Msgs  []node   `json:"msgs"`
 	Opts  []string `json:"opts,omitempty"`   // eth web3 dynfee unknown
+	NCrit []string `json:"ncrit,omitempty"`  // non-critical extension options (the router must ignore them)
 	Flaw  string   `json:"flaw,omitempty"`   // "", badsig, stalenonce (eth tx)
 	EthTx bool     `json:"eth_tx,omitempty"` // a wire-format Ethereum tx (built by MsgEthereumTx.BuildTx)
 }
@@ -130,6 +133,8 @@ type c15World struct {
 	addrs   []sdk.AccAddress
 	ethPriv *ethsecp256k1.PrivKey
 	base    sdk.Context
+	acct    sdk.Context // where account numbers, sequences and the eth nonce are read when building a tx
+	accNum0 bool        // sign with account number 0 (what the SDK expects while the check state is still at height 0)
 	cfg     cfgDesc
 	authSet map[int]bool
 	evmDen  string
@@ -159,8 +164,10 @@ func c15EthKey() *ethsecp256k1.PrivKey {
 	return &ethsecp256k1.PrivKey{Key: k}
 }
 
+var c15ConfigOnce sync.Once
+
 func c15Setup(cfg cfgDesc) *c15World {
-	NewApp() // sets the sdk config once
+	c15ConfigOnce.Do(func() { NewApp() }) // sets the sdk config once
 	keys, addrs := app.GeneratePrivKeyAddressPairs(c15NKeys)
 	ethPriv := c15EthKey()
 	keys = append(keys, ethPriv)
@@ -213,6 +220,8 @@ func c15Setup(cfg cfgDesc) *c15World {
 	w := &c15World{tApp: tApp, handler: realAnteHandler(tApp.BaseApp), txCfg: enc.TxConfig, cdc: cdc,
 		keys: keys, addrs: addrs, ethPriv: ethPriv, cfg: cfg, authSet: map[int]bool{}, evmDen: "akava"}
 	w.base = tApp.NewContext(false, tmproto.Header{Height: tApp.LastBlockHeight() + 1, Time: GenesisTime, ChainID: app.TestChainId})
+	// as baseapp does for its check and deliver states
+	w.base = w.base.WithConsensusParams(tApp.BaseApp.GetConsensusParams(w.base))
 	vals := tApp.GetStakingKeeper().GetAllValidators(w.base)
 	if len(vals) > 0 {
 		w.valAddr = vals[0].GetOperator()
@@ -222,6 +231,7 @@ func c15Setup(cfg cfgDesc) *c15World {
 			w.base = w.base.WithBlockHeader(h)
 		}
 	}
+	w.acct = w.base
 	if cfg.Auth {
 		for _, i := range cfg.Manual {
 			w.authSet[i] = true
@@ -278,7 +288,7 @@ func (w *c15World) kindURL(k string) string {
 func (w *c15World) ethMsg(delta uint64) *evmtypes.MsgEthereumTx {
 	chainID := w.tApp.GetEvmKeeper().ChainID()
 	from := common.BytesToAddress(w.ethPriv.PubKey().Address().Bytes())
-	nonce := w.tApp.GetEvmKeeper().GetNonce(w.base, from) + delta
+	nonce := w.tApp.GetEvmKeeper().GetNonce(w.acct, from) + delta
 	gasPrice := big.NewInt(1_000_000_000)
 	if bf := w.tApp.GetFeeMarketKeeper().GetBaseFee(w.base); bf != nil && bf.Sign() > 0 {
 		gasPrice = new(big.Int).Mul(bf, big.NewInt(2))
@@ -399,6 +409,17 @@ func (w *c15World) buildTx(d txDesc) (sdk.Tx, error) {
 		}
 		eb.SetExtensionOptions(anys...)
 	}
+	if len(d.NCrit) > 0 {
+		eb, ok := txb.(authtx.ExtensionOptionsTxBuilder)
+		if !ok {
+			return nil, errors.New("builder cannot set extension options")
+		}
+		anys := make([]*codectypes.Any, len(d.NCrit))
+		for i, k := range d.NCrit {
+			anys[i] = optAny(k)
+		}
+		eb.SetNonCriticalExtensionOptions(anys...)
+	}
 	// signers as the SDK derives them; sign with the keys we have
 	signers := txb.GetTx().GetSigners()
 	type sg struct {
@@ -411,11 +432,15 @@ func (w *c15World) buildTx(d txDesc) (sdk.Tx, error) {
 		if i == 99 {
 			continue
 		}
-		acc := w.tApp.GetAccountKeeper().GetAccount(w.base, s)
+		acc := w.tApp.GetAccountKeeper().GetAccount(w.acct, s)
 		if acc == nil {
 			continue
 		}
-		sgs = append(sgs, sg{w.keys[i], acc.GetAccountNumber(), acc.GetSequence()})
+		num := acc.GetAccountNumber()
+		if w.accNum0 {
+			num = 0
+		}
+		sgs = append(sgs, sg{w.keys[i], num, acc.GetSequence()})
 	}
 	mode := w.txCfg.SignModeHandler().DefaultMode()
 	sigs := make([]signing.SignatureV2, len(sgs))
@@ -531,6 +556,109 @@ func errKind(err error) string {
 	return fmt.Sprintf("%s/%d", cs, code)
 }
 
+// ------------------------------------------------------------ through baseapp itself
+
+// abciStage sends a few of the history's transactions, as wire bytes, through
+// baseapp's CheckTx and DeliverTx and compares with what the handler said when
+// called directly (and applies the monitors to what baseapp said).  "Accepted
+// for execution" in DeliverTx is observed on the state: the ante handler's
+// writes (sequence increment of the first signer) are committed exactly when
+// it accepted, whatever the messages do afterwards.
+func (w *c15World) abciStage(txs []txDesc, direct [][]stepOut, modes []string, cnt *Counters) *Failure {
+	var fail *Failure
+	hdr := w.base.BlockHeader()
+	idx := func(m string) int {
+		for i, x := range modes {
+			if x == m {
+				return i
+			}
+		}
+		return -1
+	}
+	ic, id := idx("check"), idx("deliver")
+	if ic < 0 || id < 0 {
+		return nil
+	}
+	lastLog := ""
+	note := func(i int, d txDesc, f txFacts, mode, cls, want string) {
+		if cnt != nil {
+			cnt.Inc("abci:" + mode + ":" + cls)
+		}
+		if fail != nil {
+			return
+		}
+		if pred, sig, detail := w.monitor(d, f, mode, cls); pred != "" {
+			fail = &Failure{Step: i, Predicate: pred, Signature: sig, Detail: "through baseapp: " + detail + " (log: " + lastLog + ")"}
+			return
+		}
+		if (cls == "accept") != (want == "accept") {
+			fail = &Failure{Step: i, Predicate: "baseapp-runs-the-handler-in-the-modelled-mode", Signature: "abci-disagrees-with-handler",
+				Detail: fmt.Sprintf("tx %d mode %s: baseapp says %s, the handler called directly said %s (log: %s)", i, mode, cls, want, lastLog)}
+		}
+	}
+	for i, d := range txs {
+		if i >= 8 || d.Flaw != "" {
+			continue
+		}
+		// CheckTx, sequences from the check state
+		w.acct = w.tApp.NewContext(true, hdr)
+		w.accNum0 = w.tApp.NewContext(true, tmproto.Header{}).BlockHeight() == 0 && w.tApp.LastBlockHeight() <= 1
+		tx, err := w.buildTx(d)
+		w.accNum0 = false
+		if err != nil {
+			continue
+		}
+		f := w.facts(tx)
+		bz, err := w.txCfg.TxEncoder()(tx)
+		if err != nil {
+			continue
+		}
+		rc := w.tApp.CheckTx(abci.RequestCheckTx{Tx: bz, Type: abci.CheckTxType_New})
+		cls := "accept"
+		lastLog = rc.Log
+		if rc.Code != 0 {
+			cls = "rest"
+		}
+		note(i, d, f, "check", cls, direct[i][ic].Class)
+
+		// DeliverTx, sequences from the deliver state
+		w.acct = w.tApp.NewContext(false, hdr)
+		tx, err = w.buildTx(d)
+		if err != nil {
+			continue
+		}
+		f = w.facts(tx)
+		bz, err = w.txCfg.TxEncoder()(tx)
+		if err != nil {
+			continue
+		}
+		seq := func() (uint64, bool) {
+			if len(f.signers) == 0 || f.signers[0] == 99 {
+				return 0, false
+			}
+			acc := w.tApp.GetAccountKeeper().GetAccount(w.tApp.NewContext(false, hdr), w.addrs[f.signers[0]])
+			if acc == nil {
+				return 0, false
+			}
+			return acc.GetSequence(), true
+		}
+		before, ok := seq()
+		rd := w.tApp.DeliverTx(abci.RequestDeliverTx{Tx: bz})
+		after, _ := seq()
+		lastLog = rd.Log
+		cls = "rest"
+		if (ok && after == before+1) || (!ok && rd.Code == 0) {
+			cls = "accept"
+		}
+		if rd.Code == 0 && cls != "accept" {
+			cls = "accept" // executed, so it was accepted
+		}
+		note(i, d, f, "deliver", cls, direct[i][id].Class)
+	}
+	w.acct = w.base
+	return fail
+}
+
 // ------------------------------------------------------------ facts about the constructed tx (independent of the model)
 
 type txFacts struct {
@@ -541,6 +669,7 @@ type txFacts struct {
 	ethAnywhere     bool
 	ethTop          bool
 	allTopEth       bool
+	nTop            int
 	optURLs         []string
 	signers         []int
 	hasAuthz        bool
@@ -601,6 +730,7 @@ func scanMsgs(msgs []sdk.Msg, depth int, f *txFacts) {
 func (w *c15World) facts(tx sdk.Tx) txFacts {
 	f := txFacts{allTopEth: true}
 	msgs := tx.GetMsgs()
+	f.nTop = len(msgs)
 	for _, m := range msgs {
 		u := sdk.MsgTypeURL(m)
 		if c15VestingTop[u] {
@@ -635,31 +765,39 @@ func (w *c15World) authorised(signers []int) bool {
 	return false
 }
 
-// restOK is the oracle bit: do the SDK / ethermint decorators that the model
-// does not describe accept this (by construction well-formed or deliberately
-// flawed) transaction in this mode?  Written from the construction, not from
-// the observed result.
-func restOK(d txDesc, f txFacts, mode string) bool {
+// oracle gives the two oracle bits: do the SDK / ethermint decorators that the
+// model does not describe accept this (by construction well-formed or
+// deliberately flawed) transaction in this mode — [pre] those placed before
+// Kava's gates in the chain, [post] those after?  Written from the
+// construction, not from the observed result.
+func oracle(d txDesc, f txFacts, mode string) (pre, post bool) {
 	switch {
 	case len(f.optURLs) == 1 && f.optURLs[0] == optEth:
-		// Ethereum path: a wire-format eth tx with the right nonce passes
-		return d.EthTx && d.Flaw == ""
+		// Ethereum path.  A wire-format eth tx passes set-up, fee, ValidateBasic and
+		// signature verification; a stale nonce fails in the sequence decorator
+		// (after the gate).  A single MsgEthereumTx wrapped in an ordinarily signed
+		// cosmos tx fails EthValidateBasicDecorator (signatures, fee) — which, like
+		// the gas decorator, is skipped on recheck.
+		if d.EthTx {
+			return true, d.Flaw == ""
+		}
+		return mode == "recheck" && f.allTopEth && f.nTop == 1, true
 	case len(f.optURLs) == 1 && f.optURLs[0] == optWeb3:
 		// EIP-712 path with an ordinary (SIGN_MODE_DIRECT) signature: the legacy
 		// EIP-712 verification is skipped on recheck, stops after the sequence
 		// check when simulating (one signer only), and fails otherwise
 		switch mode {
 		case "recheck":
-			return true
+			return true, true
 		case "simulate":
-			return len(f.signers) == 1
+			return true, len(f.signers) == 1
 		}
-		return false
+		return true, false
 	default:
 		if d.Flaw == "badsig" {
-			return mode == "recheck" || mode == "simulate"
+			return true, mode == "recheck" || mode == "simulate"
 		}
-		return true
+		return true, true
 	}
 }
 
@@ -711,8 +849,12 @@ func (w *c15World) monitor(d txDesc, f txFacts, mode string, cls string) (pred, 
 			return "authorised-signer-admitted", "authorised-signer-rejected", fmt.Sprintf("mode %s class %s signers %v", mode, cls, f.signers)
 		}
 	}
-	if d.EthTx && d.Flaw == "" && !acc {
-		return "eth-tx-accepted-on-eth-path", "eth-tx-rejected-on-eth-path", fmt.Sprintf("mode %s class %s", mode, cls)
+	if d.EthTx && d.Flaw == "" && !acc && (!gate || w.authorised(f.signers)) {
+		s := "eth-tx-rejected-on-eth-path"
+		if w.cfg.Auth && !gate {
+			s = "execution-affected-by-mempool-auth"
+		}
+		return "eth-tx-accepted-on-eth-path", s, fmt.Sprintf("mode %s class %s signers %v", mode, cls, f.signers)
 	}
 	return "", "", ""
 }
@@ -857,13 +999,13 @@ func c15GenTx(r *Rng, cfg cfgDesc, authIdx []int) txDesc {
 	var d txDesc
 	// signer policy: with the gate on, aim at both sides of it
 	pickActor := func() int {
-		if len(authIdx) > 0 && r.Chance(55, 100) {
+		if len(authIdx) > 0 && r.Chance(70, 100) {
 			return authIdx[r.Intn(len(authIdx))]
 		}
 		return r.Intn(c15NKeys)
 	}
 	main := pickActor()
-	kind := r.Pick(52, 22, 6, 5, 6, 9)
+	kind := r.Pick(64, 16, 4, 5, 5, 6)
 	switch kind {
 	case 0: // clean
 		n := 1 + r.Intn(3)
@@ -951,6 +1093,10 @@ func c15GenTx(r *Rng, cfg cfgDesc, authIdx []int) txDesc {
 	if r.Chance(5, 100) {
 		d.Flaw = "badsig"
 	}
+	if r.Chance(4, 100) {
+		// non-critical extension options do not select a path
+		d.NCrit = [][]string{{"eth"}, {"web3"}, {"dynfee"}, {"eth", "web3"}}[r.Intn(4)]
+	}
 	return d
 }
 
@@ -982,6 +1128,10 @@ func c15GenCfg(r *Rng, idx int) cfgDesc {
 	if r.Chance(1, 8) {
 		// enabled with nobody authorised
 		c.Manual, c.Oracles, c.Deputy = nil, nil, -1
+	}
+	if r.Chance(1, 3) {
+		// the Ethereum account is on the manual list
+		c.Manual = append(c.Manual, c15EthIdx)
 	}
 	return c
 }
@@ -1017,6 +1167,93 @@ func enumTrees(d, w int) []node {
 	return out
 }
 
+// ------------------------------------------------------------ thorough tier: the full sweep (monitors only)
+
+// sweepTree decodes index i of the enumeration of all trees with Exec nesting
+// <= 2 and width <= 3 over the 5-type alphabet: 5 leaves, then Exec of 1, 2, 3
+// children drawn from the 160 trees of nesting <= 1.
+func sweepTree(i int, sub []node) node {
+	n := len(sub)
+	if i < len(exhLeaves) {
+		return exhLeaves[i]
+	}
+	i -= len(exhLeaves)
+	for k, size := 1, n; k <= 3; k, size = k+1, size*n {
+		if i < size {
+			c := make([]node, k)
+			for j := 0; j < k; j++ {
+				c[j] = sub[i%n]
+				i /= n
+			}
+			return node{K: "exec", C: c}
+		}
+		i -= size
+	}
+	panic("sweep index out of range")
+}
+
+func sweepSize(n int) int { return len(exhLeaves) + n + n*n + n*n*n }
+
+// c15Sweep runs every tree of the sweep through the real handler in one mode
+// (DeliverTx for even indexes, CheckTx for odd ones) and applies the monitors.
+func c15Sweep(o Opts, cnt *Counters) (evals int, fails []Failure) {
+	sub := enumTrees(1, 3)
+	total := sweepSize(len(sub))
+	if lim := os.Getenv("C15_SWEEP_LIMIT"); lim != "" {
+		var l int
+		fmt.Sscan(lim, &l)
+		if l > 0 && l < total {
+			total = l
+		}
+	}
+	const chunk = 20000
+	nchunks := (total + chunk - 1) / chunk
+	res := make([][]Failure, nchunks)
+	ParallelFor(nchunks, o.Workers, func(c int) {
+		cfg := cfgDesc{Deputy: -1}
+		if c%2 == 1 {
+			cfg.Auth = true
+			cfg.Manual = []int{(c / 2) % c15NKeys}
+		}
+		w := c15Setup(cfg)
+		actor := (c / 4) % c15NKeys
+		hi := (c + 1) * chunk
+		if hi > total {
+			hi = total
+		}
+		for i := c * chunk; i < hi; i++ {
+			d := txDesc{Msgs: []node{withActor(sweepTree(i, sub), actor)}}
+			mode := "deliver"
+			if i%2 == 1 {
+				mode = "check"
+			}
+			tx, err := w.buildTx(d)
+			if err != nil {
+				panic(err)
+			}
+			f := w.facts(tx)
+			cls := classify(w.run(tx, mode))
+			cnt.Inc("sweep:" + mode + ":" + cls)
+			if pred, sig, detail := w.monitor(d, f, mode, cls); pred != "" {
+				dup := false
+				for _, x := range res[c] {
+					if x.Signature == sig {
+						dup = true
+					}
+				}
+				if !dup {
+					res[c] = append(res[c], Failure{History: -2 - c, Step: i, Predicate: pred, Signature: sig, Detail: fmt.Sprintf("sweep tree %d: %s", i, detail),
+						Replay: MustJSON(c15Hist{Seed: o.Seed, Idx: -2 - c, Cfg: cfg, Txs: []txDesc{d}, Modes: []string{mode}})})
+				}
+			}
+		}
+	})
+	for _, r := range res {
+		fails = append(fails, r...)
+	}
+	return total, fails
+}
+
 // ------------------------------------------------------------ history runner
 
 type stepOut struct {
@@ -1028,13 +1265,13 @@ type stepOut struct {
 type histOut struct {
 	hist     c15Hist
 	coq      string
-	fail     *Failure
+	fails    []*Failure
 	evals    int
 	nontriv  []string
 	accepted int
 }
 
-func (w *c15World) evalTx(d txDesc, modes []string, cnt *Counters) (steps []string, outs []stepOut, fail *Failure, f txFacts, err error) {
+func (w *c15World) evalTx(d txDesc, modes []string, cnt *Counters) (steps []string, outs []stepOut, fails []*Failure, f txFacts, err error) {
 	tx, err := w.buildTx(d)
 	if err != nil {
 		return nil, nil, nil, f, err
@@ -1052,20 +1289,29 @@ func (w *c15World) evalTx(d txDesc, modes []string, cnt *Counters) (steps []stri
 	for _, mode := range modes {
 		e := w.run(tx, mode)
 		cls := classify(e)
-		rest := restOK(d, f, mode)
+		pre, post := oracle(d, f, mode)
 		outs = append(outs, stepOut{mode, cls, errKind(e)})
-		steps = append(steps, fmt.Sprintf("(mkStep %s %s %s %s)", coqMode[mode], ctx, Bool(rest), coqClass[cls]))
+		steps = append(steps, fmt.Sprintf("(mkStep %s %s (mkOracle %s %s) %s)", coqMode[mode], ctx, Bool(pre), Bool(post), coqClass[cls]))
 		if cnt != nil {
 			c15Count(cnt, w, d, f, mode, cls, e)
 		}
-		if pred, sig, detail := w.monitor(d, f, mode, cls); pred != "" && fail == nil {
+		if pred, sig, detail := w.monitor(d, f, mode, cls); pred != "" && !hasSig(fails, sig) {
 			if e != nil {
 				detail += " (handler error: " + e.Error() + ")"
 			}
-			fail = &Failure{Predicate: pred, Signature: sig, Detail: detail}
+			fails = append(fails, &Failure{Predicate: pred, Signature: sig, Detail: detail})
 		}
 	}
 	return
+}
+
+func hasSig(fs []*Failure, sig string) bool {
+	for _, f := range fs {
+		if f.Signature == sig {
+			return true
+		}
+	}
+	return false
 }
 
 func c15Count(cnt *Counters, w *c15World, d txDesc, f txFacts, mode, cls string, e error) {
@@ -1113,8 +1359,14 @@ func c15Count(cnt *Counters, w *c15World, d txDesc, f txFacts, mode, cls string,
 		if mode == "check" || mode == "recheck" {
 			if w.authorised(f.signers) {
 				cnt.Inc("split:gate=active-authorised:" + mode)
+				if path == "eth" && d.EthTx {
+					cnt.Inc("split:eth-gate=authorised")
+				}
 			} else {
 				cnt.Inc("split:gate=active-unauthorised:" + mode)
+				if path == "eth" && d.EthTx {
+					cnt.Inc("split:eth-gate=unauthorised")
+				}
 			}
 		} else {
 			cnt.Inc("split:gate=inactive-auth-on:" + mode)
@@ -1128,6 +1380,9 @@ func c15Count(cnt *Counters, w *c15World, d txDesc, f txFacts, mode, cls string,
 	if d.Flaw != "" {
 		cnt.Inc("split:flaw=" + d.Flaw + ":" + cls)
 	}
+	if len(d.NCrit) > 0 {
+		cnt.Inc("split:noncritical-option:" + path)
+	}
 	if f.maxDepth >= 4 {
 		cnt.Inc("split:depth>=4")
 	}
@@ -1139,7 +1394,7 @@ func c15Count(cnt *Counters, w *c15World, d txDesc, f txFacts, mode, cls string,
 var c15AllSplits = []string{
 	"path=cosmos", "path=eth", "path=web3", "path=extmany", "path=extunknown",
 	"accept:cosmos:check", "accept:cosmos:recheck", "accept:cosmos:simulate", "accept:cosmos:deliver",
-	"accept:eth:check", "accept:eth:deliver", "accept:web3:recheck",
+	"accept:eth:check", "accept:eth:deliver", "accept:web3:recheck", "eth-gate=authorised", "eth-gate=unauthorised",
 	"blocked-depth=0", "blocked-depth=1", "blocked-depth=2", "blocked-depth=3", "blocked-depth=4", "blocked-depth=5", "blocked-depth=6",
 	"blocked-pos=first", "blocked-pos=middle", "blocked-pos=last",
 	"grant-target-blocked", "grant-target-blocked-nested", "vesting-top", "eth-top-on-cosmos",
@@ -1164,7 +1419,12 @@ func c15Run(h c15Hist, n int, tables anteTables, cnt *Counters, exh []node) hist
 	if len(modes) == 0 {
 		modes = c15Modes
 	}
-	authIdx := sortedSet(w.authSet)
+	var authIdx []int
+	for _, a := range sortedSet(w.authSet) {
+		if a < c15NKeys {
+			authIdx = append(authIdx, a)
+		}
+	}
 	if gen {
 		if exh != nil {
 			for _, t := range exh {
@@ -1180,8 +1440,14 @@ func c15Run(h c15Hist, n int, tables anteTables, cnt *Counters, exh []node) hist
 	}
 	out := histOut{}
 	var steps []string
+	var direct [][]stepOut
+	stream := "random"
+	if exh != nil {
+		stream = "exhaustive"
+	}
 	for i, d := range h.Txs {
-		st, outs, fail, f, err := w.evalTx(d, modes, cnt)
+		st, outs, fails, f, err := w.evalTx(d, modes, cnt)
+		direct = append(direct, outs)
 		if err != nil {
 			// construction failure: a harness problem, not a verdict
 			panic(fmt.Sprintf("cannot build tx %d of history %d: %v (%s)", i, h.Idx, err, MustJSON(d)))
@@ -1189,8 +1455,14 @@ func c15Run(h c15Hist, n int, tables anteTables, cnt *Counters, exh []node) hist
 		steps = append(steps, st...)
 		out.evals += len(outs)
 		for _, o := range outs {
+			if cnt != nil {
+				cnt.Inc("stream:" + stream + ":evaluations")
+			}
 			if o.Class == "accept" {
 				out.accepted++
+				if cnt != nil {
+					cnt.Inc("stream:" + stream + ":accepted")
+				}
 			}
 		}
 		if f.hasAuthz || len(f.optURLs) > 0 || w.cfg.Auth {
@@ -1199,20 +1471,39 @@ func c15Run(h c15Hist, n int, tables anteTables, cnt *Counters, exh []node) hist
 				T txDesc
 			}{h.Cfg, d})))
 		}
-		if fail != nil && out.fail == nil {
+		for _, fail := range fails {
+			if hasSig(out.fails, fail.Signature) {
+				continue
+			}
 			fail.History = h.Idx
 			fail.Step = i * len(modes)
-			out.fail = fail
 			// shrink: the evaluation is stateless, so the failing tx alone, then its tree
 			small := c15Shrink(w, d, modes, fail.Signature)
-			_, _, f2, _, _ := w.evalTx(small, modes, nil)
-			if f2 != nil && f2.Signature == fail.Signature {
-				f2.History, f2.Step = h.Idx, 0
-				f2.Replay = MustJSON(c15Hist{Seed: h.Seed, Idx: h.Idx, Cfg: h.Cfg, Txs: []txDesc{small}, Modes: h.Modes})
-				out.fail = f2
-			} else {
-				out.fail.Replay = MustJSON(c15Hist{Seed: h.Seed, Idx: h.Idx, Cfg: h.Cfg, Txs: []txDesc{d}, Modes: h.Modes})
+			_, _, f2s, _, _ := w.evalTx(small, modes, nil)
+			kept := false
+			for _, f2 := range f2s {
+				if f2.Signature == fail.Signature {
+					f2.History, f2.Step = h.Idx, 0
+					f2.Replay = MustJSON(c15Hist{Seed: h.Seed, Idx: h.Idx, Cfg: h.Cfg, Txs: []txDesc{small}, Modes: h.Modes})
+					out.fails = append(out.fails, f2)
+					kept = true
+					break
+				}
 			}
+			if !kept {
+				fail.Replay = MustJSON(c15Hist{Seed: h.Seed, Idx: h.Idx, Cfg: h.Cfg, Txs: []txDesc{d}, Modes: h.Modes})
+				out.fails = append(out.fails, fail)
+			}
+		}
+	}
+	// a few transactions of every history also go through baseapp's CheckTx / DeliverTx
+	if exh == nil || h.Idx%4 == 0 {
+		if fa := w.abciStage(h.Txs, direct, modes, cnt); fa != nil && !hasSig(out.fails, fa.Signature) {
+			fa.History = h.Idx
+			i := fa.Step
+			fa.Step = i * len(modes)
+			fa.Replay = MustJSON(c15Hist{Seed: h.Seed, Idx: h.Idx, Cfg: h.Cfg, Txs: []txDesc{h.Txs[i]}, Modes: h.Modes})
+			out.fails = append(out.fails, fa)
 		}
 	}
 	out.hist = h
@@ -1238,8 +1529,8 @@ func c15Shrink(w *c15World, d txDesc, modes []string, sig string) txDesc {
 		if len(c.Msgs) == 0 {
 			return false
 		}
-		_, _, f, _, err := w.evalTx(c, modes, nil)
-		return err == nil && f != nil && f.Signature == sig
+		_, _, fs, _, err := w.evalTx(c, modes, nil)
+		return err == nil && hasSig(fs, sig)
 	}
 	if d.EthTx {
 		return d
@@ -1260,8 +1551,47 @@ func c15Shrink(w *c15World, d txDesc, modes []string, sig string) txDesc {
 				break
 			}
 		}
+		if changed {
+			continue
+		}
+		// hoist: replace an Exec (not a top-level one: its signer signs the tx) by one of its children
+		for _, p := range paths {
+			n := nodeAt(cur.Msgs, p)
+			for k := range n.C {
+				cand := cur
+				cand.Msgs = replaceAt(cur.Msgs, p, n.C[k])
+				if fails(cand) {
+					cur = cand
+					changed = true
+					break
+				}
+			}
+			if changed {
+				break
+			}
+		}
 	}
 	return cur
+}
+
+func nodeAt(ms []node, p []int) node {
+	n := ms[p[0]]
+	for _, i := range p[1:] {
+		n = n.C[i]
+	}
+	return n
+}
+
+func replaceAt(ms []node, p []int, by node) []node {
+	out := append([]node(nil), ms...)
+	if len(p) == 1 {
+		out[p[0]] = by
+		return out
+	}
+	n := out[p[0]]
+	n.C = replaceAt(n.C, p[1:], by)
+	out[p[0]] = n
+	return out
 }
 
 func allPaths(ms []node) [][]int {
@@ -1310,7 +1640,8 @@ func runC15(o Opts) (*Result, error) {
 	res := &Result{Property: "C15", Seed: o.Seed,
 		Rule: "every transaction (random trees of depth <= 6 plus the exhaustive sweep) is evaluated by the real composed ante handler in CheckTx, ReCheckTx, simulate and DeliverTx mode; an evaluation is non-trivial when the transaction contains an authz Exec or Grant, carries an extension option, or runs with the authenticated mempool enabled; distinct by hash of (mempool configuration, transaction description)"}
 	cnt := NewCounters()
-	enc := func() codectypes.InterfaceRegistry { NewApp(); return app.MakeEncodingConfig().InterfaceRegistry }()
+	c15ConfigOnce.Do(func() { NewApp() })
+	enc := app.MakeEncodingConfig().InterfaceRegistry
 	tables := readAnteTables(enc)
 	diffs := compareTables(tables)
 	res.Extra = map[string]any{"tables_read_from_source": tables, "repo": repoDir()}
@@ -1342,21 +1673,20 @@ func runC15(o Opts) (*Result, error) {
 		res.Shards = []string{name}
 		res.HistIndex = []HistRef{{0, 0, h.Idx, MustJSON(out.hist)}}
 		res.Histories, res.Evaluations = 1, out.evals
-		if out.fail != nil {
-			res.Failures = append(res.Failures, *out.fail)
+		for _, f := range out.fails {
+			res.Failures = append(res.Failures, *f)
 		}
 		res.Counters = cnt.Map()
 		return res, nil
 	}
 
-	// exhaustive part: all single-message transactions over the 5-type alphabet,
-	// depth <= 2 / width <= 3 (quick), additionally depth <= 3 / width <= 2 (thorough),
-	// in chunks of 40 transactions, each chunk under the configuration of its history index
+	// exhaustive part: all single-message transactions over the 5-type alphabet with
+	// Exec nesting <= 1 / width <= 3 (160 trees) and Exec nesting <= 2 / width <= 2
+	// (1265 trees), in chunks of 40 transactions, each chunk under the
+	// configuration of its history index
 	var exh []node
-	exh = append(exh, enumTrees(2, 3)...)
-	if o.Tier == "thorough" {
-		exh = append(exh, enumTrees(3, 2)...)
-	}
+	exh = append(exh, enumTrees(1, 3)...)
+	exh = append(exh, enumTrees(2, 2)...)
 	const chunk = 40
 	nExh := (len(exh) + chunk - 1) / chunk
 	total := o.N + nExh
@@ -1417,12 +1747,20 @@ func runC15(o Opts) (*Result, error) {
 				return nil, err
 			}
 		}
-		if ot.fail != nil {
-			res.Failures = append(res.Failures, *ot.fail)
+		for _, f := range ot.fails {
+			res.Failures = append(res.Failures, *f)
 		}
 	}
 	if err := flush(); err != nil {
 		return nil, err
+	}
+	if o.Tier == "thorough" {
+		// all 4 121 765 single-message trees with Exec nesting <= 2 and width <= 3 over
+		// the 5-type alphabet, one mode each, monitors only (no Coq case files)
+		n, fs := c15Sweep(o, cnt)
+		res.Evaluations += n
+		res.Failures = append(res.Failures, fs...)
+		res.Extra["sweep_trees"] = n
 	}
 	res.Counters = cnt.Map()
 	res.Counters["accepted-evaluations"] = accepted
